@@ -64,7 +64,8 @@ def run(ctx):
 
 
 def putcoll_n_cases(ctx):
-    ns = [0, 1, 2, 5] if ctx.quick else [0, 1, 2, 3, 5, 8, 13, 21, 34, 50]
+    # beyond any plausible batch size of file descriptors / fsyncs (101: one more than a batch of 100)
+    ns = [0, 1, 2, 5, 101] if ctx.quick else [0, 1, 2, 3, 5, 8, 13, 21, 34, 50, 101, 205]
     return ns
 
 
@@ -83,7 +84,7 @@ def _run(ctx, base):
         for lay in lays:
             cases.append(("warm", lay, name))
             cases.append(("warm", lay, name2))
-    for o in B.extra_requests():
+    for o in list(B.extra_requests()) + list(B.names_requests()):
         cases.append(("warm", (False, False), o))
         if not ctx.quick:
             cases.append(("cold", (True, True), o))
